@@ -194,7 +194,8 @@ def check_case(case):
                     src = img if mode == "forward" else np.asarray(fn_(img, *o))
                     a = [src.astype(float), o[0], o[1], o[2], o[3], mode]
                     for pos in range(5):
-                        variants(r, "%s:%s(%s)" % (tag, fn_.__name__, mode), fn_, a, pos, 0.0, 0.0)
+                        # the image is an array by the property's own wording ("raw images indexed img[x,y]"): nested lists / tuples are left out
+                        variants(r, "%s:%s(%s)" % (tag, fn_.__name__, mode), fn_, a, pos, 0.0, 0.0, skip=("list", "tuple", "int list", "int tuple") if pos == 0 else ())
             x, y = pix[len(pix) // 2]
             for fn_ in (det.xy_to_detyz, det.detyz_to_xy):
                 a = [[float(x), float(y)], o[0], o[1], o[2], o[3], ny, nx]
